@@ -932,7 +932,15 @@ func (u *Unit) evalIndex(st *State, x *ast.IndexExpr) Val {
 		idx := u.eval(st, x.Index)
 		_, _, ln, _ := u.sliceParts(base)
 		u.safe("index", x.Pos(), st, sAnd(app("<=", "0", idx.T), app("<", idx.T, ln)), "0 <= index < len")
-		return Val{T: u.sliceAt(base, idx.T), Ty: rt, So: u.sortOf(bt.Elem())}
+		ev := Val{T: u.sliceAt(base, idx.T), Ty: rt, So: u.sortOf(bt.Elem())}
+		// an element read from a slice is a Go value of its type (nested lengths are >= 0, ...)
+		switch bt.Elem().Underlying().(type) {
+		case *types.Struct, *types.Slice, *types.Map:
+			if inv := u.typeInv(ev); inv != "true" && u.inSpec == 0 {
+				st.assume(inv)
+			}
+		}
+		return ev
 	case *types.Array:
 		idx := u.eval(st, x.Index)
 		u.safe("index", x.Pos(), st, sAnd(app("<=", "0", idx.T), app("<", idx.T, strconv.FormatInt(bt.Len(), 10))), "0 <= index < len(array)")
